@@ -294,12 +294,9 @@ loop:
 
 func genAdapterFrame(r *Rng) func(i int) []byte {
 	return func(i int) []byte {
-		m := genHeaders(r, true)
+		m := smallHeaders(r)
 		m["_opid"] = strconv.Itoa(1000 + i) // distinct ids: one result channel per frame
-		p := genPayload(r)
-		if len(p) > 64 {
-			p = p[:64]
-		}
+		p := smallPayload(r)
 		return append(marshalSorted(m), p...)
 	}
 }
